@@ -1138,8 +1138,10 @@ impl WriteBackend for SlowReads {
 // ------------------------------------------------------------------------------------------------
 // big: an index file becomes due in the middle of the run while both packers flush packs; index writes are slow
 
-/// watchdog of a `big` case (each of: commands, oracles); an idle host needs 10-20 s
-const BIG_WD: u64 = 420;
+/// watchdog seconds of a `big` case of n directories (each of: commands, oracles); an idle host needs 10-20 s for 25,000
+fn big_wd(n: u64) -> u64 {
+    WD_SECS + n / 60
+}
 
 /// `n` directories `w/d<i>` with one small file each, every file with content of its own: n data blobs, n + 3 trees
 fn big_src(n: u64) -> Vec<SE> {
@@ -1175,7 +1177,7 @@ fn exec_big(seed: &str, cmd: &str, dirs: &str, t1: &str, t2: &str, k: &str) -> S
         Pool::Default => 0,
         Pool::Installed(n) => n,
         Pool::Global(g) => {
-            return match in_child(g, 2 * BIG_WD + 10, &format!("c13 big {seed}.0 {cmd} {n} {t1} {t2} {k}")) {
+            return match in_child(g, 2 * big_wd(n) + 10, &format!("c13 big {seed}.0 {cmd} {n} {t1} {t2} {k}")) {
                 Ok(s) => s,
                 Err(e) if e == "timeout" => "oracle-fail:timeout".into(),
                 Err(e) => e,
@@ -1183,7 +1185,7 @@ fn exec_big(seed: &str, cmd: &str, dirs: &str, t1: &str, t2: &str, k: &str) -> S
         }
     };
     let cmd = cmd.to_string();
-    let res = watchdog(BIG_WD, move || -> Result<(DH, SnapshotFile), String> {
+    let res = watchdog(big_wd(n), move || -> Result<(DH, SnapshotFile), String> {
         in_pool(threads, move || {
             let ek = |e: Box<rustic_core::RusticError>| crate::util::errkind(&e);
             let adv = || Adv { idx_write: Some((t1, t2, k as usize)), ..Adv::default() };
@@ -1231,7 +1233,7 @@ fn exec_big(seed: &str, cmd: &str, dirs: &str, t1: &str, t2: &str, k: &str) -> S
         Some(Err(e)) => return e,
         Some(Ok(x)) => x,
     };
-    let res = watchdog(BIG_WD, move || -> Result<(usize, usize, usize), String> {
+    let res = watchdog(big_wd(n), move || -> Result<(usize, usize, usize), String> {
         in_pool(threads, move || {
             let (stored, indexed, _) = storage_vs_index(&h).map_err(|e| crate::util::errkind(&e))?;
             if stored != indexed {
@@ -1697,7 +1699,7 @@ fn budget_of(t: &[&str]) -> Option<(u64, bool)> {
             let n = parse_forest(forest)?.len() + parse_roots(roots)?.len();
             Some((stream_wd(wd, n) + 15, wd == 0))
         }
-        ["big", ..] => Some((4 * BIG_WD + 60, true)),
+        ["big", _, _, dirs, ..] => Some((4 * big_wd(dirs.parse::<u64>().ok().filter(|n| *n <= 100_000)?) + 60, true)),
         ["order", run, src] => {
             let sa = parse_src(src)?;
             _ = parse_runs(run)?;
